@@ -112,6 +112,14 @@ def run(ctx, res):
                             (isinstance(v_, ast.Tuple) and all(isinstance(x_, ast.Name) and x_.id in fi.params[:2] for x_ in v_.elts)))
                         if not okv:
                             rebinds_only = False
+    # the top-level statement that exchanges the operands (`if <a is the "larger" type>: a, b = b, a`), if any
+    swap_stmt = None
+    for st_ in fi.node.body:
+        for n_ in ast.walk(st_):
+            if isinstance(n_, ast.Assign) and len(n_.targets) == 1 and isinstance(n_.targets[0], ast.Tuple) \
+                    and [txt(x_) for x_ in n_.targets[0].elts] == list(fi.params[:2]) and isinstance(n_.value, ast.Tuple) \
+                    and [txt(x_) for x_ in n_.value.elts] == list(reversed(fi.params[:2])):
+                swap_stmt = st_
     signature: Dict[Tuple[str, str], tuple] = {}
     computed: Dict[Tuple[str, str], ast.Return] = {}
     computed_all: List[Tuple[Tuple[str, str], ast.Return]] = []
@@ -146,11 +154,18 @@ def run(ctx, res):
             for r in rets:
                 computed[(ta, tb)] = r
                 computed_all.append(((ta, tb), r))
-            if len(rets) == 1 and rebinds_only and isinstance(rets[0].value, ast.Call) and len(rets[0].value.args) == 2 \
-                    and all(isinstance(a_, ast.Name) and a_.id in fi.params[:2] for a_ in rets[0].value.args) \
-                    and rets[0].value.args[0].id != rets[0].value.args[1].id:
-                signature[(ta, tb)] = (id(rets[0]), tuple(
-                    show(eng.ctx_node_types.get((fi.qual, bound, id(a_)), frozenset())) for a_ in rets[0].value.args))
+            if rebinds_only and swap_stmt is not None:
+                # the operand types AFTER the exchange statement (read off the later uses of the two parameters): if they
+                # are the same for both orders, and the same returns are reached, the two orders run one computation
+                later: Dict[str, set] = {pa_: set() for pa_ in fi.params[:2]}
+                for st_ in fi.node.body[fi.node.body.index(swap_stmt) + 1:]:
+                    for nm_ in ast.walk(st_):
+                        if isinstance(nm_, ast.Name) and isinstance(nm_.ctx, ast.Load) and nm_.id in later:
+                            t_ = eng.ctx_node_types.get((fi.qual, bound, id(nm_)), frozenset())
+                            if t_:
+                                later[nm_.id] |= {show(t_)}
+                if all(len(v_) == 1 for v_ in later.values()):
+                    signature[(ta, tb)] = (tuple(sorted(id(r_) for r_ in rets)), tuple(next(iter(later[pa_])) for pa_ in fi.params[:2]))
             res.ob("R10.1", fi.where(rets[0]), lab, True, "computed by its own branch (%d return(s))" % len(rets))
         # R10.2 on every reached return
         for r in rets:
@@ -163,8 +178,8 @@ def run(ctx, res):
         sg = signature.get((ta, tb))
         if both and sg is not None and sg == signature.get((tb, ta)) and set(sg[1]) == {ta, tb}:
             res.ob("R10.1", fi.where(computed[(ta, tb)]), "{%s, %s}" % (ta, tb), True,
-                   "the operands are exchanged so that both orders reach the same `%s` with operand types %s" % (
-                       txt(computed[(ta, tb)].value)[:40], sg[1]))
+                   "the operands are exchanged in front of the dispatch: both orders continue with operand types %s and reach the "
+                   "same return(s), e.g. `%s`" % (sg[1], txt(computed[(ta, tb)].value)[:40]))
             continue
         if both and computed[(ta, tb)].value is not None and computed[(tb, ta)].value is not None \
                 and sum(1 for k_, _r in computed_all if k_ == (ta, tb)) == 1 and sum(1 for k_, _r in computed_all if k_ == (tb, ta)) == 1:
